@@ -327,6 +327,20 @@ def check_command(ctx, case, kit, conn, mname, c, wire, info, nprobes):
             except Exception:   # noqa
                 described_ok = False
             why = rm.status(A, x, 'wire')[1] or 'valid'
+        if executed and c.get('result'):
+            # the reply carries the result in transport form: importable with the described result datainfo, equal to what the
+            # command function returned
+            R = c['result']
+            try:
+                rdt = get_datatype(info['result'], wire)
+                j = json.loads(json.dumps(r[2][0], allow_nan=False))
+                got = rm.canon(rdt.validate(rdt.import_value(j)))
+                if rm.denotes(R, c['resval'], None, got, 'drv'):
+                    ctx.finding(f'command:result-differs:{R["k"]}', dict(sub, x=x), f'do {spec}: reply {r[2][0]!r} imports to {got!r}, the function returned {c["resval"]!r}')
+                else:
+                    ctx.ok('command-result-importable')
+            except Exception as e:   # noqa
+                ctx.finding(f'command:result-not-importable:{R["k"]}:{type(e).__name__}', dict(sub, x=x), f'do {spec}: reply {r[2]!r}: {e!r}'[:300])
         if executed != described_ok:
             ctx.finding(f'command:verdict-differs:{why}' + (f':{label}' if adt is None else ''), dict(sub, x=x),
                         f'do {spec} {x!r}: node {"executes" if executed else r[2][:2]}, described datainfo {"accepts" if described_ok else "rejects"}')
@@ -365,7 +379,9 @@ def attack_undescribed(ctx, case, kit, conn, mname, name, what, rec):
 def attack_undescribed_module(ctx, case, kit, conn, mname, cs, rec):
     before = len(rec['calls'])
     names = [classgen.wire_name(p['name'], True) for p in cs['params']] + [classgen.wire_name(c['name'], True) for c in cs.get('cmds', [])]
-    for wire in names[:3] + ['value']:
+    # names an accessible-level 'export' of the configuration would give (the module as a whole stays hidden)
+    configured = [p['export'] for p in cs['params'] if isinstance(p.get('export'), str)]
+    for wire in configured + names[:3] + ['value']:
         for action, data in (('read', None), ('change', 0), ('do', None), ('activate', None), ('describe', None)):
             ctx.ev()
             spec = f'{mname}:{wire}' if wire != 'value' or action != 'activate' else mname
